@@ -828,6 +828,18 @@ def main():
                 strip = lambda t: re.sub(r";.*\n?", "\n", t)      # the driver's comment stripping (the library API gets stripped text)
                 sys.stdout.write("asm2 " + enc(strip(a)) + " " + enc(strip(b)) + " " + ("-" if not vals else ".".join(map(str, vals))) + "\n")
         return
+    if group == "jumpspell":
+        # every jump / loop mnemonic of the Intel manual (written out here, not read from the grammar), lower and upper case
+        names = ("jmp ja jnbe jae jnb jnc jb jnae jc jbe jna je jz jg jnle jge jnl jl jnge jle jng jne jnz jno jnp jpo jns jo jp jpe js "
+                 "jcxz loop loope loopz loopne loopnz").split()
+        k = 0
+        for nm in names:
+            for spelled in (nm, nm.upper()):
+                for pre, post in (("", ""), ("inc ax\n", "\nhlt"), ("", " ")):
+                    if k % nshards == shard:
+                        sys.stdout.write("jsp " + enc("start:\ntgt:\n" + pre + spelled + " tgt" + post + "\n") + " " + spelled + "\n")
+                    k += 1
+        return
     if group == "operands":
         for i, (src, line) in enumerate(operand_cases(g.rng, thorough)):
             if i % nshards == shard:
